@@ -9,6 +9,7 @@ import (
 	"encoding/hex"
 	"encoding/json"
 	"fmt"
+	"runtime"
 	"strings"
 	"time"
 	_ "time/tzdata" // zone rules embedded: the sandbox may have no zoneinfo files
@@ -117,6 +118,10 @@ func replayHistoryNoisy(h *recHistory, noisy bool) ([]blockResult, *chain.Chain)
 			time.Local = loc
 			defer func() { time.Local = saved }()
 		}
+	}
+	if noisy {
+		// ... on a host with a single core, so that anything the application hands to goroutines is scheduled differently
+		defer runtime.GOMAXPROCS(runtime.GOMAXPROCS(1))
 	}
 	gopts := historyGenesisAt(h.Window, h.Check, h.NumAccounts, h.GenesisUnix)
 	if noisy {
@@ -235,6 +240,7 @@ type histBuilder struct {
 	owners  []chain.Account
 	// class flags
 	multiProverReward bool
+	multiSigner       bool
 	aclWithManyIDs    bool
 	formRequested     bool
 }
@@ -290,6 +296,15 @@ func (b *histBuilder) send(signer chain.Account, msg sdk.Msg) abci.ResponseDeliv
 	b.cur.Txs = append(b.cur.Txs, txResult{r.Code, r.Codespace, r.GasWanted, r.GasUsed, hex.EncodeToString(r.Data), flattenEvents(r.Events)})
 	b.curRec.Txs = append(b.curRec.Txs, hex.EncodeToString(txb))
 	b.logf("%s -> code %d %s", msgSummary(msg), r.Code, trunc(r.Log, 50))
+	return r
+}
+
+// sendRaw delivers transaction bytes built elsewhere.
+func (b *histBuilder) sendRaw(txb []byte, what string) abci.ResponseDeliverTx {
+	r := b.c.Deliver(txb)
+	b.cur.Txs = append(b.cur.Txs, txResult{r.Code, r.Codespace, r.GasWanted, r.GasUsed, hex.EncodeToString(r.Data), flattenEvents(r.Events)})
+	b.curRec.Txs = append(b.curRec.Txs, hex.EncodeToString(txb))
+	b.logf("%s -> code %d %s", what, r.Code, trunc(r.Log, 50))
 	return r
 }
 
@@ -398,7 +413,7 @@ func buildHistory(rt *rapid.T, full bool) (*histBuilder, string) {
 		}
 		nTx := rapid.IntRange(0, 5).Draw(rt, "txs")
 		for j := 0; j < nTx; j++ {
-			switch rapid.IntRange(0, 11).Draw(rt, "action") {
+			switch rapid.IntRange(0, 12).Draw(rt, "action") {
 			case 0, 1, 2: // provers prove (several in the same block)
 				f := b.files[rapid.IntRange(0, len(b.files)-1).Draw(rt, "file")]
 				k := rapid.IntRange(1, len(b.provs)).Draw(rt, "howManyProvers")
@@ -462,9 +477,34 @@ func buildHistory(rt *rapid.T, full bool) (*histBuilder, string) {
 				}
 				to := b.accs[rapid.IntRange(0, len(b.accs)-1).Draw(rt, "to")]
 				b.send(a, &notiftypes.MsgCreateNotification{Creator: a.Bech, To: to.Bech, Contents: fmt.Sprintf(`{"n":%d}`, i*10+j)})
+				if rapid.IntRange(0, 2).Draw(rt, "secondInTheSameBlock") == 0 { // same sender, same recipient, same block time
+					b.send(a, &notiftypes.MsgCreateNotification{Creator: a.Bech, To: to.Bech, Contents: fmt.Sprintf(`{"n":%d,"again":true}`, i*10+j)})
+				}
 			case 8:
 				o := b.owners[rapid.IntRange(0, 1).Draw(rt, "owner")]
 				b.send(o, &storagetypes.MsgBuyStorage{Creator: o.Bech, ForAddress: o.Bech, DurationDays: rapid.SampledFrom([]int64{30, 60, 365}).Draw(rt, "days"), Bytes: rapid.SampledFrom([]int64{3_000_000_000, 6_000_000_000}).Draw(rt, "bytes"), PaymentDenom: "ujkl"})
+			case 9: // one transaction, two or three signers (one message each); some of them sign carelessly
+				n := rapid.IntRange(2, 3).Draw(rt, "signers")
+				first := rapid.IntRange(0, len(b.accs)-n).Draw(rt, "firstSigner")
+				signers := append([]chain.Account{}, b.accs[first:first+n]...)
+				var msgs []sdk.Msg
+				delta, corrupt := make([]int64, n), make([]bool, n)
+				for q, a := range signers {
+					msgs = append(msgs, &notiftypes.MsgCreateNotification{Creator: a.Bech, To: b.accs[(first+q+1)%len(b.accs)].Bech, Contents: fmt.Sprintf(`{"m":%d}`, i*10+j)})
+					switch rapid.IntRange(0, 3).Draw(rt, "care") {
+					case 0:
+						delta[q] = rapid.SampledFrom([]int64{-1, 1, -2}).Draw(rt, "seqDelta") // stale or future sequence number
+					case 1:
+						corrupt[q] = true // well-formed signature that does not verify
+					}
+				}
+				txb, err := b.c.SignTxMulti(signers, delta, corrupt, 30_000_000, msgs...)
+				if err != nil {
+					b.logf("multi-signer tx: cannot sign: %v", err)
+					break
+				}
+				b.sendRaw(txb, fmt.Sprintf("multi-signer tx of %d (seq deltas %v, corrupted %v)", n, delta, corrupt))
+				b.multiSigner = true
 			default: // adversarial tail: any message type, fields from the pools
 				env := &fillEnv{Height: b.c.Height, Names: []string{"alpha.jkl", "beta.ibc", "jklprice"}, Strings: []string{root, home, hexsha(o0.Bech), "jklprice"}}
 				for _, a := range b.accs {
